@@ -31,7 +31,7 @@ EXPLANATION = (
     "compared with the affine law computed with Python ints; ec_ws_new_point "
     "refuses off-curve points; blind_scalar_factor = k + R*order for scalars of "
     "any length with every write in bounds. Not decided: the windowed ladders "
-    "as a whole, operands outside the case tables, the X25519/X448 ladders.")
+    "as a whole, operands outside the case tables, the ladders on full-length scalars.")
 
 PT = "Crypto.PublicKey._point"
 DH = "Crypto.Protocol.DH"
@@ -162,5 +162,8 @@ def run(check, ctx):
     # the Edwards curves: field layer of 25519 and the group-law cases (torsion points included) for Ed25519 / Ed448
     from . import c_ed
     c_ed.ed_tables(check, ctx)
+    # the Montgomery ladders on short scalars, low-order points and neutral results included
+    from . import c_x
+    c_x.x_tables(check, ctx)
     check.undecided.append("the group law for operand pairs outside the case table; the windowed scalar-multiplication "
                            "ladders as a whole (ec_scalar, generator tables); Ed25519/Ed448/X25519/X448 native code")
